@@ -490,6 +490,8 @@ impl MWorld {
             bad = Some(format!("object #{id} handed out after it was destroyed"));
         } else if o.taken || o.retain_removed {
             bad = Some(format!("object #{id} handed out after it was taken / removed by retain"));
+        } else if o.dead {
+            bad = Some(format!("object #{id} handed out although a recycling / post_create step had failed, timed out or been cancelled for it"));
         }
         o.holder = Some(actor);
         o.handouts += 1;
@@ -627,6 +629,7 @@ fn gate_call(kind: CallKind, obj: Option<u32>, metrics: Option<MSeen>) -> u32 {
             w.calls[ci].res = CallRes::Panic;
             w.calls[ci].end_step = Some(step);
             w.cnt.fault(&format!("{}_panic_in_call", kind_family(kind)));
+            crate::moracle::on_call_end(w, ci);
         }
         (g, panic_now)
     });
@@ -737,6 +740,7 @@ fn gate_poll<T: GateOut>(gate: u32, waker: Option<&Waker>) -> GateAct<T> {
                 w.calls[ci].res = CallRes::Ok;
                 engine::log_event(&[121, gate as u64]);
                 let v = T::ok(w);
+                crate::moracle::on_call_end(w, ci);
                 GateAct::Ready(v)
             }
             OKind::ErrMsg | OKind::ErrBackend => {
@@ -750,12 +754,14 @@ fn gate_poll<T: GateOut>(gate: u32, waker: Option<&Waker>) -> GateAct<T> {
                     if msg { "message" } else { "backend" }
                 ));
                 engine::log_event(&[122, gate as u64, id as u64]);
+                crate::moracle::on_call_end(w, ci);
                 GateAct::Ready(T::err(id, msg))
             }
             OKind::Panic | OKind::PanicCall => {
                 w.calls[ci].res = CallRes::Panic;
                 w.cnt.fault(&format!("{}_panic", kind_family(kind)));
                 engine::log_event(&[123, gate as u64]);
+                crate::moracle::on_call_end(w, ci);
                 GateAct::Panic
             }
             OKind::Never => unreachable!(),
@@ -802,7 +808,7 @@ impl<T> Drop for GateFut<T> {
                 if was_polled {
                     w.cnt.fault(&format!("abandoned_at_{}", kind_family(kind)));
                 }
-                crate::moracle::on_call_dropped(w, ci);
+                crate::moracle::on_call_end(w, ci);
             }
         });
     }
